@@ -8,6 +8,7 @@ import (
 
 	"github.com/grafana/codejen"
 	"github.com/grafana/cog/internal/ast"
+	"github.com/grafana/cog/internal/ast/compiler"
 	"github.com/grafana/cog/internal/jennies/common"
 	"github.com/grafana/cog/internal/jennies/template"
 	"github.com/grafana/cog/internal/languages"
@@ -38,8 +39,8 @@ func (jenny RawTypes) Generate(context languages.Context) (codejen.Files, error)
 		context: context,
 	}))
 
-	// generate typehints with a compiler pass
-	context.Schemas, err = (&AddTypehintsComments{config: jenny.config}).Process(context.Schemas)
+	// generate typehints with a compiler pass, on a copy: the schemas of the context are shared with the other jennies
+	context.Schemas, err = compiler.Passes{&AddTypehintsComments{config: jenny.config}}.Process(context.Schemas)
 	if err != nil {
 		return nil, err
 	}
